@@ -211,3 +211,82 @@ class UFunction:
                     self.atoms[key] = f'{self.name}{"".join(map(str, comp))}#{len(self.atoms)}'
                 out[(b,) + comp] = Poly.var(self.atoms[key])
         return XT(out, dtype=y.dtype)
+
+
+class DynJetFunction:
+    """Smooth user function for *exact* (non-perturbative) identities with autograd.
+
+    The value at an argument is expanded around the argument's own eta-free part:
+        phi(t, y0 + dy, th0 + dth) = sum_alpha  D^alpha phi [t, y0, th0] * dy^alpha dth^alpha / alpha!
+    where (t, y0, th0) is the argument with every autograd perturbation variable set to zero, dy/dth
+    are the (nilpotent) eta parts, and the derivative atoms D^alpha phi[point] are named by the
+    normal form of the point.  With eta-free arguments this is an uninterpreted function.
+    """
+
+    def __init__(self, name, d, out, params=(), elementwise=False, ydep=True):
+        self.name = name
+        self.d = d
+        self.out = tuple(out)
+        self.params = list(params)      # XT scalar leaves the function depends on
+        self.elementwise = elementwise
+        self.ydep = ydep
+        self.points = {}
+        self.calls = 0
+
+    def _point(self, key):
+        if key not in self.points:
+            self.points[key] = len(self.points)
+        return self.points[key]
+
+    def __pyvc_call__(self, engine, args, kwargs, cx, lineno):
+        return self.evaluate(args[0], args[1])
+
+    def evaluate(self, t, y):
+        self.calls += 1
+        tp = el_detach(scalar_poly(t))
+        if not isinstance(y, XT) or y.a.ndim != 2 or y.a.shape[1] != self.d:
+            raise I.PyExc('RuntimeError', f'{self.name}: state of shape {getattr(y, "shape", None)}; expected (B,{self.d})')
+        B = y.a.shape[0]
+        out = np.empty((B,) + self.out, dtype=object)
+        pvals = []
+        for h in self.params:
+            cur = Poly.lift(h.a.reshape(-1)[0])
+            base = el_detach(cur)
+            pvals.append((base, _powers(cur - base)))
+        for b in range(B):
+            bases, pows = [], []
+            for k in range(self.d):
+                cur = Poly.lift(y.a[b, k])
+                base = el_detach(cur)
+                bases.append(base)
+                pows.append(_powers(cur - base))
+            for comp in itertools.product(*[range(n) for n in self.out]):
+                if not self.ydep:
+                    use = []
+                elif self.elementwise:
+                    use = [comp[0]]
+                else:
+                    use = list(range(self.d))
+                key = (comp, repr(tp), tuple(repr(bases[k]) for k in use), tuple(repr(pb) for pb, _ in pvals))
+                pid = self._point(key)
+                ylists = [pows[k] if k in use else pows[k][:1] for k in range(self.d)]
+                tot = Poly()
+                for alpha in itertools.product(*([range(len(l)) for l in ylists] + [range(len(pw)) for _, pw in pvals])):
+                    term = Poly.const(1)
+                    for k, l in enumerate(ylists):
+                        term = term * l[alpha[k]]
+                    for k, (_, pw) in enumerate(pvals):
+                        term = term * pw[alpha[self.d + k]]
+                    if term.is_zero():
+                        continue
+                    fact = 1
+                    for n in alpha:
+                        fact *= math.factorial(n)
+                    sym = f'{self.name}{"".join(map(str, comp))}@{pid}_d{"".join(map(str, alpha))}'
+                    tot = tot + term * Poly.var(sym) * Fraction(1, fact)
+                out[(b,) + comp] = tot
+        rg = STATE['grad'] and (y.rg or any(h.rg for h in self.params))
+        if not STATE['grad']:
+            from .tensor import _map
+            out = _map(el_detach, out)
+        return XT(out, rg=rg, leaf=not rg, dtype=y.dtype)
